@@ -35,8 +35,10 @@ uint64_t ApiRun::prestate(int cif, MCont *c, MLoop *l) {
     if (l) { h = hmix(h, std::min<size_t>(l->packets.size(), 3)); h = hmix(h, std::min<size_t>(l->names.size(), 3)); h = hmix(h, l->is_scalar() ? 1 : 0); }
     return h;
 }
-void ApiRun::arm_faults(const Op &o) { if (o.fault_kind >= 1 && o.fault_kind <= 6) { g_disk.arm(o.fault_kind, o.fault_at, o.fault_code, o.fault_sticky); g_stats.inc("fault.disk.configured"); } }
-void ApiRun::disarm_faults() { g_disk.disarm(); }
+// The simulated disk fails only inside the library calls of the op the fault is attached to (api() arms / disarms around
+// each call); the harness's own queries (dumps, handle look-ups) always see a healthy disk.
+void ApiRun::arm_faults(const Op &o) { if (o.fault_kind >= 1 && o.fault_kind <= 6) { g_disk.arm(o.fault_kind, o.fault_at, o.fault_code, o.fault_sticky); g_disk.armed = false; disk_plan_active = true; g_stats.inc("fault.disk.configured"); } }
+void ApiRun::disarm_faults() { g_disk.disarm(); disk_plan_active = false; }
 bool ApiRun::fault_fired() const { return g_disk.fired; }
 void ApiRun::after_mutation(int cif, bool failed) {
     static long counter = 0;
@@ -629,6 +631,7 @@ void ApiRun::op_iter_open(const Op &o) {
     if (!it) violate("result", "get_packets:null", "no iterator recorded on success");
     HIter hi; hi.it = it; hi.cif = ci; hi.loop_slot = ls; hi.snapshot = cifs[(size_t) ci].model;
     for (auto &p : l->packets) hi.undelivered.insert(p.uid);
+    hi.loops_at_open = loops.size(); hi.conts_at_open = conts.size();
     iters.push_back(hi); cifs[(size_t) ci].iter = (int) iters.size() - 1; hl.locked = true;
     g_stats.inc("iter.opened");
 }
@@ -722,7 +725,13 @@ void ApiRun::op_iter_end(const Op &o, bool abort) {
     int rc = abort ? CALLN("cif_pktitr_abort", cif_pktitr_abort(hi.it)) : CALLN("cif_pktitr_close", cif_pktitr_close(hi.it));
     hi.it = NULL; loops[(size_t) hi.loop_slot].locked = false; c.iter = -1;
     cover(abort ? O_IterAbort : O_IterClose, rc, (uint64_t) hi.state);
-    if (abort) c.model = hi.snapshot;
+    if (abort) {
+        c.model = hi.snapshot;
+        // objects created inside the aborted transaction no longer exist; handles on them are not valid handles any more
+        // (their loop numbers may even be reused), so they are released rather than kept as "stale" handles
+        for (size_t k = hi.loops_at_open; k < loops.size(); ++k) if (loops[k].h && loops[k].cif == ci) free_loop_slot((int) k);
+        for (size_t k = hi.conts_at_open; k < conts.size(); ++k) if (conts[k].h && conts[k].cif == ci && !find_cont(c.model, conts[k].uid)) free_cont_slot((int) k);
+    }
     if (RELAX_FAULT(rc)) { c.model = hi.snapshot; check_dump(ci, "after a failed close (reverted)"); return; }
     expect_rc(abort ? "cif_pktitr_abort" : "cif_pktitr_close", rc, {CIF_OK});
     g_stats.inc(abort ? "iter.aborted" : "iter.closed");
